@@ -27,7 +27,8 @@ type execProfile struct {
 }
 
 var (
-	execErrs = []ErrD{sent(0), sent(1), wrap(sent(0)), {K: "TypedP", A: 1, B: 0}, {K: "Open"}, {K: "Timeout"}, {K: "Exceeded", A: 1, Sub: []ErrD{sent(0)}}}
+	execErrs = []ErrD{sent(0), sent(1), wrap(sent(0)), {K: "TypedP", A: 1, B: 0}, {K: "Open"}, {K: "Timeout"}, {K: "Exceeded", A: 1, Sub: []ErrD{sent(0)}},
+		wrap(join(sent(1), ErrD{K: "TypedP", A: 1, B: 0})), join(sent(2), wrap(sent(0)))}
 )
 
 func genOutcome(r *Rng) OutD {
@@ -609,7 +610,7 @@ func TestDrive_C07(t *testing.T) {
 	driveC07Race(t)
 	pf := execProfile{name: "C07", kinds: []string{"Timeout", "Timeout", "Retry", "Fallback", "Bulkhead", "Limiter", "Breaker"}, hedgePct: 20, maxDepth: 4, mustHave: "Timeout", extPct: 0, coopPct: 50, maxReqs: 2, withExec: true}
 	driveExec(t, "C07", pf, 0, 0,
-		"stacks containing at least one Timeout (limits 1.5-8.5 us with distinct residues) alone and relative to retry, fallback, bulkhead, rate limiter and breaker, including nested timeouts; function durations placed at 0, limit/2, limit-1ns, limit+1ns, 2*limit, 3*limit+7 for cooperative (return on cancellation) and non-cooperative functions; plus retries around a Timeout where an earlier attempt timed out and the caller cancels in the middle of a later attempt. Non-trivial = a timeout fired or a failure was handled. "+execRule,
+		"stacks containing at least one Timeout (limits 1.5-8.5 us with distinct residues) alone and relative to retry, fallback, bulkhead, rate limiter and breaker, including nested timeouts; function durations placed at 0, limit/2, limit-1ns, limit+1ns, 2*limit, 3*limit+7 for cooperative (return on cancellation) and non-cooperative functions; plus retries around a Timeout where an earlier attempt timed out and the caller cancels in the middle of a later attempt; plus executions whose caller's context is already cancelled (or past its deadline) when they start. Non-trivial = a timeout fired or a failure was handled. "+execRule,
 		func(w *CaseWriter, rng *Rng, add func(InstD, []ReqD, string)) {
 			n := 450
 			if envTier() == "thorough" {
@@ -666,7 +667,55 @@ func TestDrive_C07(t *testing.T) {
 				}
 				add(InstD{}, []ReqD{rq}, "cancel-after-earlier-timeout")
 			}
+			preCancelled(rng, m, true, add)
 		})
+}
+
+// the caller's context is already done (cancelled, or its deadline in the past) when the execution starts: every policy is
+// entered by an execution that is cancelled from the first instant on.  Stacks of timeout / retry / fallback / breaker
+// (a bulkhead or rate limiter with a free permit may pick either ready case of its select).
+func preCancelled(rng *Rng, n int, needTimeout bool, add func(InstD, []ReqD, string)) {
+	for i := 0; i < n; i++ {
+		g := &instGen{}
+		limit := int64(2+rng.Intn(6))*1024 + 512
+		var stack []PolD
+		for d, depth := 0, 1+rng.Intn(3); d < depth; d++ {
+			switch rng.Intn(4) {
+			case 0:
+				stack = append(stack, PolD{K: "Retry", MaxRetries: int64(1 + rng.Intn(2)), Delay: Pick(rng, []int64{0, 2048})})
+			case 1:
+				stack = append(stack, PolD{K: "Fallback", FBKind: Pick(rng, []string{"Echo", "WrapErr", "Result"}), FBR: 3})
+			case 2:
+				stack = append(stack, genPolicy(rng, "Breaker", d, g))
+			default:
+				stack = append(stack, PolD{K: "Timeout", Limit: limit + int64(d)})
+			}
+		}
+		if needTimeout {
+			stack = append(stack, PolD{K: "Timeout", Limit: limit + 7})
+		}
+		coop := OutD{R: -5, Err: &ErrD{K: "Sent", A: 2}}
+		step := FnStepD{Out: genOutcome(rng), Dur: Pick(rng, []int64{256, limit / 2, limit + 1024, 3*limit + 7})}
+		if rng.Bool() {
+			step.Coop, step.Lag = &coop, int64(1+rng.Intn(5))
+		}
+		rq := ReqD{Stack: stack, CtxKey: -1, Entry: Pick(rng, append(append([]string{}, execEntries...), plainEntries...)), Script: []FnStepD{step, {Out: OutD{R: 1}, Dur: 512}},
+			ExtKind: Pick(rng, []string{"PreCancel", "PreCancel", "PreDeadline"})}
+		if !strings.Contains(rq.Entry, "WithExecution") {
+			rq.Script[0].Coop, rq.Script[0].Lag = nil, 0 // without an Execution the function cannot see the cancellation
+		}
+		if strings.HasPrefix(rq.Entry, "Run") {
+			for k := range rq.Script {
+				rq.Script[k].Out.R = 0
+			}
+			c0 := coop
+			c0.R = 0
+			if rq.Script[0].Coop != nil {
+				rq.Script[0].Coop = &c0
+			}
+		}
+		add(g.inst, []ReqD{rq}, "pre-cancelled")
+	}
 }
 
 func TestDrive_C08(t *testing.T) {
@@ -679,6 +728,7 @@ func TestDrive_C08(t *testing.T) {
 				n = 4000
 			}
 			cancelledHandledResult(rng, n/5, true, add)
+			preCancelled(rng, n/5, false, add)
 			// a waiting policy OUTSIDE the retry policy, cancelled in the middle of its wait
 			for i := 0; i < n/2; i++ {
 				g := &instGen{}
